@@ -23,6 +23,7 @@ import (
 	"os"
 	"path/filepath"
 	"regexp"
+	"runtime/debug"
 	"sort"
 	"strconv"
 	"strings"
@@ -115,13 +116,14 @@ func (w *world) addAcct(b []byte) int {
 }
 
 func newWorld(r *hx.Rng) *world {
-	return newWorldCfg(r, false)
+	return newWorldCfg(r, false, 0)
 }
 
-func newWorldCfg(r *hx.Rng, sub bool) *world {
-	activate(sub)
+func newWorldCfg(r *hx.Rng, sub bool, regime int) *world {
+	activate(sub, regime)
 	w := &world{nodeWorld: newNodeWorld(), heights: map[uint64]bool{}, ghost: map[string]int64{}, ncOf: map[int]int{}}
 	w.Sub = sub
+	w.Regime = regime
 	w.h = 20 + uint64(r.Intn(1000))
 	// ids: four 32-byte ids (first byte != 0x70), two short ones; no id is a prefix of another
 	for i := 0; i < 4; i++ {
@@ -697,7 +699,8 @@ func main() {
 	for i := 0; i < a.N; i++ {
 		if w == nil || w.blocks >= blocksPerWorld {
 			worlds++
-			w = newWorldCfg(rng, worlds%3 == 0) // every third world runs the sub-chain configuration
+			// world families in turn: main chain, sub chain, before proposal002/003, before every proposal
+			w = newWorldCfg(rng, worlds%4 == 2, map[int]int{3: 1, 0: 2}[worlds%4])
 		}
 		w.step(rng, res, cs)
 	}
@@ -770,7 +773,7 @@ func (w *world) envLit() (string, string) {
 		au = append(au, fmt.Sprintf("(%d%%N,%d%%N)", i+1, u))
 		ad = append(ad, fmt.Sprintf("(%d%%N,%d%%N)", i+1, w.addrOf[i+1]))
 	}
-	return fmt.Sprintf("%s %s [] %s %s %s %s %s", nlist(ids), hx.CoqList(ik), hx.CoqList(au), hx.CoqList(ad),
+	return fmt.Sprintf("%s %s %s [] %s %s %s %s %s", w.gatesCoq(), nlist(ids), hx.CoqList(ik), hx.CoqList(au), hx.CoqList(ad),
 		nlist(w.contracts), nlist(accts), nlist(w.addrU)), hx.CoqList(ch)
 }
 
@@ -780,6 +783,23 @@ var litLeft int
 func (w *world) addLit(rest string, js interface{}) {
 	env, chain := w.envLit()
 	litCases.Add(fmt.Sprintf("CSL (CS %s %s) %s", env, rest, chain), js)
+}
+
+func (w *world) gatesCoq() string {
+	switch w.Regime {
+	case 1:
+		return "(GT false false true true true)"
+	case 2:
+		return "(GT false false false false false)"
+	}
+	return "(GT true true true true true)"
+}
+
+func (w *world) fee() *big.Int {
+	if w.Regime == 2 {
+		return wei("0.0001")
+	}
+	return feeWei
 }
 
 func (w *world) envCoq() string {
@@ -822,7 +842,7 @@ func (w *world) envCoq() string {
 		ad = append(ad, fmt.Sprintf("(%d%%N,%d%%N)", i+1, w.addrOf[i+1]))
 	}
 	w.keyBytes = kb
-	return fmt.Sprintf("%s %s %s %s %s %s %s %s", nlist(ids), hx.CoqList(ik), hx.CoqList(ht), hx.CoqList(au), hx.CoqList(ad),
+	return fmt.Sprintf("%s %s %s %s %s %s %s %s %s", w.gatesCoq(), nlist(ids), hx.CoqList(ik), hx.CoqList(ht), hx.CoqList(au), hx.CoqList(ad),
 		nlist(w.contracts), nlist(accts), nlist(w.addrU))
 }
 
@@ -872,6 +892,9 @@ func (w *world) runCaseBlock(r *hx.Rng, res *hx.Result, h uint64, g []gtx, casto
 		defer func() {
 			if x := recover(); x != nil {
 				br.panicked = fmt.Sprint(x)
+				if os.Getenv("C20_DEBUG") != "" {
+					fmt.Println(string(debug.Stack()))
+				}
 			}
 		}()
 		rcs = runBlock(w.nodeWorld, h, w.ids[castor-1], groupId, txs, func(i int, adb *account.AccountDB) { br.mids[i] = w.observeMid(adb) })
@@ -926,9 +949,15 @@ func (w *world) runCaseBlock(r *hx.Rng, res *hx.Result, h uint64, g []gtx, casto
 			exp.esc = nil
 			if codes[i] != 1 {
 				si := indexOf(w.addrU, g[i].src)
-				exp.bals[si] = new(big.Int).Sub(exp.bals[si], feeWei)
+				exp.bals[si] = new(big.Int).Sub(exp.bals[si], w.fee())
 				fi := indexOf(w.addrU, 1)
-				exp.bals[fi] = new(big.Int).Add(exp.bals[fi], feeWei)
+				exp.bals[fi] = new(big.Int).Add(exp.bals[fi], w.fee())
+				if w.Regime > 0 && g[i].kind == "opnode" && (codes[i] == 9 || codes[i] == 13) {
+					// before proposal002 balance writes are not journalled: the 10-token charge survives the revert
+					exp.bals[si] = new(big.Int).Sub(exp.bals[si], tenTok)
+					burnedNow.Add(burnedNow, tenTok)
+					res.Violate("C20/rejected-noop:pre-proposal002:operator-node-charge-not-reverted", tag+" was rejected, its 10-token charge is not undone (SubFT wrote through the unjournalled setData before proposal002)", input)
+				}
 			}
 			got := cloneState(cur.ostate)
 			got.esc = nil
@@ -1118,6 +1147,10 @@ func (w *world) step(r *hx.Rng, res *hx.Result, cs *hx.Cases) {
 	rh := ((h + 35999) / 36000) * 36000
 	withGroup := r.Intn(4) == 0 && rh != h // a block with a verifying group: rewards are scheduled at rh
 	w.heights[h+refundDelay] = true
+	if w.Regime == 2 { // the refund heights of the rule before proposal012 / proposal004
+		w.heights[0] = true
+		w.heights[((h+35999)/36000)*36000+50] = true
+	}
 	if withGroup {
 		w.heights[rh] = true
 	}
@@ -1250,7 +1283,7 @@ func (w *world) step(r *hx.Rng, res *hx.Result, cs *hx.Cases) {
 		if err != nil {
 			panic(err)
 		}
-		w.nodeWorld = &nodeWorld{TDB: mainNW.TDB, ADB: sibADB, Root: parentRoot, Sub: mainNW.Sub}
+		w.nodeWorld = &nodeWorld{TDB: mainNW.TDB, ADB: sibADB, Root: parentRoot, Sub: mainNW.Sub, Regime: mainNW.Regime}
 		w.ghost = ghost0
 		brB := w.runCaseBlock(r, res, h, gB, castor, nil, pre, inputB)
 		rootB := w.Root
@@ -1289,6 +1322,10 @@ func (w *world) step(r *hx.Rng, res *hx.Result, cs *hx.Cases) {
 	if w.Sub {
 		ident = "sub|" + ident
 		res.Histogram["block on a sub-chain world"]++
+	}
+	if w.Regime > 0 {
+		ident = fmt.Sprintf("regime%d|", w.Regime) + ident
+		res.Histogram[fmt.Sprintf("block on a %s world", []string{"", "pre-proposal002/003", "pre-every-proposal"}[w.Regime])]++
 	}
 	res.Count("block["+strconv.Itoa(nb)+"]", ident, reached)
 	if len(br.rewards) > 0 {
@@ -1866,7 +1903,7 @@ func switchNotes(res *hx.Result) {
 	var lines []string
 	for _, n := range names {
 		cov := []string{}
-		for _, fam := range []string{"main-chain worlds", "sub-chain worlds"} {
+		for _, fam := range families {
 			v := switchCover[fam][n]
 			switch {
 			case v == nil:
@@ -1881,5 +1918,5 @@ func switchNotes(res *hx.Result) {
 		}
 		lines = append(lines, fmt.Sprintf("%s (%s) - %s", n, strings.Join(used[n], ","), strings.Join(cov, "; ")))
 	}
-	res.Note("configuration switches on the execution path and the values the runs covered (dev chain config, all proposals active from height 0): " + strings.Join(lines, " | "))
+	res.Note("configuration switches on the execution path and the values the runs covered (dev chain config; the proposal fork heights are moved per world family): " + strings.Join(lines, " | "))
 }
